@@ -498,16 +498,17 @@ class OscScore():
         # Process time in seconds to store in the score and
         # support sub-bundles relative time like _build_bundle.
         # _check_subtime is done by _build_bundle before calling this method.
-        for i, element in enumerate(bndl[1:], 1):
+        # The result is a new list, the lists received are the user's.
+        res = [self._get_logical_time(send_time, bndl[0])]
+        for element in bndl[1:]:
             if isinstance(element[0], (int, float, type(None))):
-                bndl[i] = self._process_bndl_time(send_time, element)
+                element = self._process_bndl_time(send_time, element)
             elif not isinstance(element[0], str):
                 raise ValueError(
                     'elements within bundles must be valid '
                     f'OSC messages or bundles: {element}')
-        bndl = bndl[:]
-        bndl[0] = self._get_logical_time(send_time, bndl[0])
-        return bndl
+            res.append(element)
+        return res
 
     def _get_logical_time(self, send_time, time):
         # Same as OscNrtInterface._get_timetag but in logical time.
